@@ -196,8 +196,10 @@ def make_run(W, shape, known_active=None):
             for kid, e in known_active.items():
                 if e.get("kind") != "hook-disagreement":
                     continue
-                fwd = [a[0], b[0]] == e["ctors"] and [NAME[d1], NAME[d2]] in e["answers"]
-                bwd = [b[0], a[0]] == e["ctors"] and [NAME[d2], NAME[d1]] in e["answers"]
+                # (tuple[T, ...] is normalised to a value-dependent type: it is a "Dependent" for the recorded constructor pairs)
+                ca, cb = {"tupvar": "Dep"}.get(a[0], a[0]), {"tupvar": "Dep"}.get(b[0], b[0])
+                fwd = [ca, cb] == e["ctors"] and [NAME[d1], NAME[d2]] in e["answers"]
+                bwd = [cb, ca] == e["ctors"] and [NAME[d2], NAME[d1]] in e["answers"]
                 if not (fwd or bwd):
                     continue
                 hook1 = A.__type_order__(B) if hasattr(A, "__type_order__") else NotImplemented
